@@ -2399,3 +2399,134 @@ func fieldSelOnRecv(info *types.Info, st ast.Stmt, recv types.Object, chanOp fun
 	})
 	return fv, owned
 }
+
+// ---- C11.R14: a wrapper answers what the limiter it wraps answered.
+// BucketSet (one limiter per key) and MultiLimit (several limiters for one scope) take a permit by asking the wrapped
+// limiter. What they report is what it said: after a refusal no success, after a grant no failure unless the granted
+// permit is handed back first. With the test of the inner answer inverted (survivors of the mutant run of round 12) a
+// granted permit is reported as refused – held by nobody, never released: the limit fills up – and a refused one as
+// granted: more than N proceed, and their Release panics on the empty limiter.
+func c11WrapperReportsInnerAnswer(c *Check, rule string) {
+	c.Rule(rule, "limiters: a Take / TakeContext that asks a wrapped limiter reports its answer – after an inner refusal no successful return is reachable, after an inner grant no failing return is reachable without a Release of that limiter", 4)
+	p := c.P
+	pk := p.Pkg("internal/limits/limiters")
+	if pk == nil {
+		c.Fail(rule, "package", token.NoPos, "anchor unresolved")
+		return
+	}
+	info := pk.TypesInfo
+	n := 0
+	p.AllFuncs([]*packagesPkg{pk}, func(fi *FuncInfo) {
+		if fi.Decl.Body == nil || fi.Decl.Recv == nil || strings.HasSuffix(p.Fset.Position(fi.Decl.Pos()).Filename, "_test.go") {
+			return
+		}
+		name := fi.Obj.Name()
+		if name != "Take" && name != "TakeContext" {
+			return
+		}
+		sig := fi.Obj.Type().(*types.Signature)
+		if sig.Results().Len() != 1 {
+			return
+		}
+		errForm := isErrorType(sig.Results().At(0).Type())
+		fl := p.FlowOfFunc(fi)
+		recv := recvObjOf(fi)
+		isInner := func(call *ast.CallExpr) bool {
+			if methodName(call) != name {
+				return false
+			}
+			if rx := callRecv(call); rx == nil || objOf(info, rx) == recv {
+				return false
+			}
+			fn := callee(info, call)
+			return fn != nil && fn.Pkg() != nil && fn.Pkg() == pk.Types
+		}
+		retKind := func(pt Pt) string { // "ok", "fail", ""
+			k, ret := fl.Exit(pt)
+			if k != ExitReturn || ret == nil || len(ret.Results) != 1 {
+				return ""
+			}
+			e := ast.Unparen(ret.Results[0])
+			if errForm {
+				if isNilIdent(info, e) {
+					return "ok"
+				}
+				return "fail"
+			}
+			if tv, has := info.Types[e]; has && tv.Value != nil {
+				if tv.Value.String() == "true" {
+					return "ok"
+				}
+				return "fail"
+			}
+			return ""
+		}
+		k := 0
+		for _, pt := range fl.Points() {
+			nd := pt.Node()
+			if nd == nil {
+				continue
+			}
+			for _, call := range callsAt(nd) {
+				if !isInner(call) {
+					continue
+				}
+				n++
+				k++
+				c.SawFunc(fi.Name())
+				key := fi.Name() + ":inner" + itoa(k)
+				innerRecv := exprStr(callRecv(call))
+				releases := func(q Pt) bool {
+					if q.Node() == nil {
+						return false
+					}
+					for _, cc := range callsAt(q.Node()) {
+						if methodName(cc) == "Release" && exprStr(callRecv(cc)) == innerRecv {
+							return true
+						}
+					}
+					return false
+				}
+				again := func(q Pt) bool { return q.Node() != nil && len(callsAt(q.Node())) > 0 && func() bool {
+					for _, cc := range callsAt(q.Node()) {
+						if isInner(cc) {
+							return true
+						}
+					}
+					return false
+				}() }
+				msg := ""
+				if errForm {
+					eo := errVarAssigned(info, nd, call)
+					if eo == nil {
+						c.Hold(rule, key, call.Pos(), false, "undecided: the error of the wrapped limiter is not kept in a variable")
+						continue
+					}
+					if path, f := fl.ReachRefined(pt, eo, false, false, func(q Pt) bool { return retKind(q) == "ok" }, again); f {
+						msg = "after the wrapped limiter refused (" + fl.Describe(path) + ") the wrapper reports success: the request proceeds without a permit – more than N at a time – and its Release finds the limiter empty"
+					} else if path, f := fl.ReachRefined(pt, eo, true, false, func(q Pt) bool { return retKind(q) == "fail" }, func(q Pt) bool { return again(q) || releases(q) }); f {
+						msg = "after the wrapped limiter granted the permit (" + fl.Describe(path) + ") the wrapper reports failure without handing it back: the permit is held by nobody and never released – the limit fills up"
+					}
+				} else {
+					world := func(val bool) func(b *cfgBlock, i int) bool {
+						return fl.World(func(atom ast.Expr) (bool, bool) {
+							if cc, isCall := ast.Unparen(atom).(*ast.CallExpr); isCall && cc == call {
+								return val, true
+							}
+							return false, false
+						})
+					}
+					if path, f := fl.Reach(Query{From: []Pt{pt}, Target: func(q Pt) bool { return retKind(q) == "ok" }, Avoid: again, AvoidEdge: world(false)}); f {
+						msg = "after the wrapped limiter refused (" + fl.Describe(path) + ") the wrapper reports success: the request proceeds without a permit – more than N at a time – and its Release finds the limiter empty"
+					} else if path, f := fl.Reach(Query{From: []Pt{pt}, Target: func(q Pt) bool { return retKind(q) == "fail" }, Avoid: func(q Pt) bool { return again(q) || releases(q) }, AvoidEdge: world(true)}); f {
+						msg = "after the wrapped limiter granted the permit (" + fl.Describe(path) + ") the wrapper reports failure without handing it back: the permit is held by nobody and never released – the limit fills up"
+					}
+				}
+				c.Hold(rule, key, call.Pos(), msg == "", msg)
+			}
+		}
+	})
+	if n == 0 {
+		c.Fail(rule, "wrappers", token.NoPos, "anchor unresolved: no limiter wraps another")
+	}
+}
